@@ -247,10 +247,9 @@ func (s *Storer) GetReader(offset int64, verifyCrc bool) (*Reader, error) {
 	s.mux.RLock()
 	defer s.mux.RUnlock()
 
-	s.dataSetMux.Lock()
-	defer s.dataSetMux.Unlock()
-
-	ds := s.dataSet
+	// do not hold dataSetMux here: with verifyCrc the AOF reader asks the storer (hasWriter ->
+	// getDataSet) while it is being opened, which would dead-lock on a write-locked dataSetMux
+	ds := s.getDataSet()
 	if !ds.InRange(offset) {
 		return nil, os.ErrNotExist
 	}
